@@ -69,6 +69,7 @@ type comp struct {
 	prio    int
 	trigger string // "@", "#", "*", "-" (none) ; for nr: kind "probe" | "em"
 	accept  bool   // bp/ip: accept; pt: detach
+	noInt   bool   // bp: CanInterruptParagraph() == false
 	channel int
 }
 
@@ -78,11 +79,14 @@ func (p *bpProbe) Trigger() []byte {
 	if p.c.trigger == "-" {
 		return nil
 	}
+	if p.c.trigger == "dash" {
+		return []byte{'-'}
+	}
 	return []byte(p.c.trigger)
 }
 func (p *bpProbe) Open(parent ast.Node, reader text.Reader, pc parser.Context) (ast.Node, parser.State) {
 	line, _ := reader.PeekLine()
-	if !bytes.Contains(line, []byte("probe")) {
+	if !bytes.Contains(line, []byte("probe")) && !bytes.HasPrefix(line, []byte("---")) {
 		return nil, parser.NoChildren // only crafted lines are of interest
 	}
 	callLog = append(callLog, "bp:"+p.c.name)
@@ -96,7 +100,7 @@ func (p *bpProbe) Continue(node ast.Node, reader text.Reader, pc parser.Context)
 	return parser.Close
 }
 func (p *bpProbe) Close(node ast.Node, reader text.Reader, pc parser.Context) {}
-func (p *bpProbe) CanInterruptParagraph() bool                                { return true }
+func (p *bpProbe) CanInterruptParagraph() bool                                { return !p.c.noInt }
 func (p *bpProbe) CanAcceptIndentedLine() bool                                { return false }
 
 type ipProbe struct{ c comp }
@@ -165,7 +169,7 @@ func parseSpec(s string) []comp {
 		}
 		prio, _ := strconv.Atoi(p[2])
 		ch, _ := strconv.Atoi(p[5])
-		out = append(out, comp{typ: p[0], name: p[1], prio: prio, trigger: p[3], accept: p[4] == "1", channel: ch})
+		out = append(out, comp{typ: p[0], name: p[1], prio: prio, trigger: p[3], accept: p[4] == "1" || p[4] == "3", noInt: p[4] == "2" || p[4] == "3", channel: ch})
 	}
 	return out
 }
@@ -174,6 +178,9 @@ func (c comp) String() string {
 	a := "0"
 	if c.accept {
 		a = "1"
+	}
+	if c.noInt {
+		a = map[string]string{"0": "2", "1": "3"}[a]
 	}
 	return fmt.Sprintf("%s:%s:%d:%s:%s:%d", c.typ, c.name, c.prio, c.trigger, a, c.channel)
 }
@@ -293,6 +300,7 @@ var docLines = map[string]string{
 	"inl@":   "para a @ b\n",
 	"inl*":   "para a *x* b\n",
 	"plain":  "plain\n",
+	"defhr":  "[foo]: /url\n---\n",
 }
 
 func rendererFor(cs []comp, kind string, builtinPrio int) string {
@@ -410,6 +418,38 @@ func priorityOracle(c *kit.Case) error {
 				}
 			default:
 				wantOut.WriteString(renderProbe(w.name, false))
+			}
+		case "defhr":
+			// "[foo]: /url" then "---": while the definition paragraph is open only
+			// parsers that can interrupt a paragraph are tried; the setext parser (100)
+			// takes the line, the paragraph turns out to be a definition and disappears,
+			// and the line is offered again to ALL parsers in priority order; the
+			// thematic break parser (200) finally accepts.
+			var pass1, pass2 []cand
+			for _, x := range cs {
+				if x.typ == "bp" && x.trigger == "dash" {
+					if x.prio < 100 && !x.noInt {
+						pass1 = append(pass1, cand{name: x.name, prio: x.prio, accept: x.accept})
+					}
+					if x.prio < 200 {
+						pass2 = append(pass2, cand{name: x.name, prio: x.prio, accept: x.accept})
+					}
+				}
+			}
+			calls, w := firstAcceptor(pass1)
+			for _, n := range calls {
+				want = append(want, "bp:"+n)
+			}
+			if w == nil {
+				calls, w = firstAcceptor(pass2)
+				for _, n := range calls {
+					want = append(want, "bp:"+n)
+				}
+			}
+			if w != nil {
+				wantOut.WriteString(renderProbe(w.name, false))
+			} else {
+				wantOut.WriteString("<hr>\n")
 			}
 		case "para", "plain", "inl@", "inl*":
 			line := strings.TrimSuffix(docLines[k], "\n")
@@ -605,6 +645,11 @@ func TestPriority(t *testing.T) {
 			}
 		}
 		add("bp", rapid.IntRange(2, 5).Draw(t, "nbp"), []string{"@", "#", "#", "-"}, map[string]int{"#": 600, "-": 1000})
+		// block parsers on '-' (shared with setext 100 / thematic break 200 / list 300), some of which cannot interrupt a paragraph
+		for i, n := 0, rapid.IntRange(0, 3).Draw(t, "ndash"); i < n; i++ {
+			cs = append(cs, comp{typ: "bp", name: "d" + strconv.Itoa(i), prio: prio(150), trigger: "dash",
+				accept: rapid.IntRange(0, 2).Draw(t, "dacc") == 0, noInt: rapid.Bool().Draw(t, "noint"), channel: rapid.IntRange(0, 3).Draw(t, "dch")})
+		}
 		add("ip", rapid.IntRange(2, 5).Draw(t, "nip"), []string{"@", "*", "*"}, map[string]int{"*": 500})
 		add("pt", rapid.IntRange(0, 4).Draw(t, "npt"), []string{"-"}, map[string]int{"-": 100})
 		add("at", rapid.IntRange(0, 4).Draw(t, "nat"), []string{"-"}, nil)
@@ -618,7 +663,7 @@ func TestPriority(t *testing.T) {
 		nk := rapid.IntRange(2, 6).Draw(t, "nlines")
 		var keys []string
 		for i := 0; i < nk; i++ {
-			keys = append(keys, rapid.SampledFrom([]string{"at", "hvalid", "hbad", "para", "inl@", "inl*", "plain"}).Draw(t, "line"))
+			keys = append(keys, rapid.SampledFrom([]string{"at", "hvalid", "hbad", "para", "inl@", "inl*", "plain", "defhr"}).Draw(t, "line"))
 		}
 		c := kit.NewCase("priority", "").S("spec", strings.Join(parts, " ")).S("doc", strings.Join(keys, " "))
 		lastNontrivial = false
